@@ -94,7 +94,7 @@ func detStreamDesc(cfg detConfig, frames []detFrame, upto int) func() interface{
 func TestVerif_C07(t *testing.T) {
 	c := vStart(t, "C07", "TestVerif_C07")
 	defer c.Finish()
-	n := c.N(60000, 1500000)
+	n := c.N(60000, 6000000)
 	for idx := int64(0); idx < n; idx++ {
 		if !c.Mine(idx) {
 			continue
